@@ -19,6 +19,14 @@ fn main() {
         }
     };
     engine::install_panic_hook();
+    // many checks hold hundreds of descriptors per thread (listener hand-off, wire lab)
+    unsafe {
+        let mut lim: libc::rlimit = std::mem::zeroed();
+        if libc::getrlimit(libc::RLIMIT_NOFILE, &mut lim) == 0 {
+            lim.rlim_cur = lim.rlim_max.min(1 << 20);
+            libc::setrlimit(libc::RLIMIT_NOFILE, &lim);
+        }
+    }
     let code = match std::panic::catch_unwind(|| props::dispatch(&args)) {
         Ok(c) => c,
         Err(_) => {
